@@ -57,7 +57,10 @@ func (e *Expression) String() string {
 // If there are any syntax or semantic errors, this will return an
 // error indicating the reason for the compilation failure.
 func Compile(path string, options ...opts.CompileOption) (*Expression, error) {
-	options = append(options, compopts.Transform(func(e expr.Expression) expr.Expression {
+	// Append to a copy: the caller's slice may have spare capacity, and appending
+	// in place would write into a backing array the caller (or another goroutine
+	// compiling with the same options) still owns.
+	options = append(options[:len(options):len(options)], compopts.Transform(func(e expr.Expression) expr.Expression {
 		return storeLastExpression{e}
 	}))
 
